@@ -139,7 +139,10 @@ def tlc(module, cfg, env=None, workers=1, timeout=1700, xmx="8g", extra=None, ta
     err = None
     if not ok:
         lines = [x for x in out.splitlines() if not x.startswith(("Parsing", "Semantic", "Linting"))]
-        err = "\n".join(lines[-60:])
+        err = "\n".join(lines[:25] + ["..."] + lines[-40:]) if len(lines) > 70 else "\n".join(lines)
+        os.makedirs(os.path.join(WORK, "logs"), exist_ok=True)
+        with open(os.path.join(WORK, "logs", "tlc-fail-%s-%d.log" % (module, int(time.time()))), "w") as lf:
+            lf.write(" ".join(cmd) + "\n" + out)
     log("[tlc] %s/%s %.1fs generated=%d distinct=%d %s" % (module, cfg, time.time() - t0, gen, dist, "ok" if ok else "FAILED"))
     return dict(ok=ok, generated=gen, distinct=dist, out=out, error=err, wd=wd, rc=p.returncode)
 
